@@ -351,6 +351,63 @@ func genCaseVariantCase(r *prng.R, id string) proto.Case {
 	return proto.Case{ID: id, Ops: ops}
 }
 
+// An endpoint declared with NO plugin or only DISABLED ones (the usual way to exempt one URL) inside a
+// {param} / wildcard pattern that has enabled plugins: the exempt endpoint is still the most specific
+// declared pattern and must shadow the general one (nothing endpoint-scoped is applied to it).
+func genExemptCase(r *prng.R, id string) proto.Case {
+	type pair struct{ general, exempt, other string }
+	p := prng.Pick(r, []pair{
+		{"api.com/users/{id}", "api.com/users/me", "api.com/users/7"},
+		{"a.com/*", "a.com/health", "a.com/x/y"},
+		{"a.com/x/*", "a.com/x/{p}", "a.com/x/y/z"},
+		{"b.com/{p}/items", "b.com/a/items", "b.com/b/items"},
+		{"a.com/x/{p}/*", "a.com/x/{p}/c", "a.com/x/b/d"},
+	})
+	plug := func(prefix string, mode int) (string, string) {
+		switch mode {
+		case 0: // nothing at all
+			return "-", "-"
+		case 1: // only disabled plugins
+			return prefix + "r0:1:0", prefix + "d0:0"
+		case 2: // disabled remedy, no diagnosis
+			return prefix + "r0:2:0", "-"
+		case 3: // mixed enabled / disabled
+			return prefix + "r0:1:0," + prefix + "r1:2:1", prefix + "d0:0"
+		default: // enabled
+			return prefix + "r0:3:1", prefix + "d0:1"
+		}
+	}
+	gr, gd := plug("g", 4)
+	er, ed := plug("x", r.Intn(4))
+	m := prng.Pick(r, methods)
+	ops := []string{
+		fmt.Sprintf("ep %s %s r=%s d=%s", m, proto.Enc(p.general), gr, gd),
+		fmt.Sprintf("ep %s %s r=%s d=%s", m, proto.Enc(p.exempt), er, ed),
+	}
+	if r.Chance(30) {
+		tr, td := plug("t", r.Intn(5))
+		ops = append(ops, fmt.Sprintf("ep %s %s r=%s d=%s", prng.Pick(r, methods), proto.Enc(derivePattern(r, p.exempt)), tr, td))
+	}
+	if r.Chance(20) {
+		ops = append(ops, "glob r=gg0:4:1 d=-")
+	}
+	n := len(ops)
+	if strings.HasPrefix(ops[n-1], "glob") {
+		n--
+	}
+	reqs := []string{
+		fmt.Sprintf("req %s %s", m, proto.Enc(instantiate(r, p.exempt, false))),
+		fmt.Sprintf("req %s %s", m, proto.Enc(p.other)),
+		fmt.Sprintf("req %s %s", m, proto.Enc(instantiate(r, p.general, false))),
+		fmt.Sprintf("req %s %s", prng.Pick(r, methods), proto.Enc(instantiate(r, p.exempt, false))),
+	}
+	for _, o := range allPerms(n) {
+		ops = append(ops, "build perm="+permStr(o))
+		ops = append(ops, reqs...)
+	}
+	return proto.Case{ID: id, Ops: ops}
+}
+
 // ---- L1 cases ---------------------------------------------------------------------------------
 
 func genTrieCase(r *prng.R, id string) proto.Case {
@@ -460,6 +517,8 @@ func gen(r *prng.R, f proto.Flags, emit func(proto.Case)) {
 		switch {
 		case k%25 == 7:
 			emit(genCaseVariantCase(rr, fmt.Sprintf("c%d", k)))
+		case k%25 == 8:
+			emit(genExemptCase(rr, fmt.Sprintf("e%d", k)))
 		case k%3 == 0:
 			emit(genTrieCase(rr, fmt.Sprintf("t%d", k)))
 		default:
